@@ -5,12 +5,16 @@
 //! input  = (retention_secs retention_nanos (op ...))
 //!   op   = (0 height time (tx ...) (mint_contract mint_asset))     a block
 //!        | (1 keyspace key)                                        EvictorDb::set_latest_assigned_key on the compressor
-//!   tx   = (script (input ...) (output ...))
+//!   tx   = (script (input ...) (output ...)) | (script (input ...) (output ...) mal)
+//!          mal != 0: the transaction is in "executed" form, i.e. its malleable compress(skip) fields
+//!          (script receipts_root, contract-input utxo_id / roots / tx_pointer, change amount, variable
+//!          output, contract-output roots) are non-default; the mint may carry a third element likewise
 //!   input  = (0 contract) | (1 predicate) message-coin predicate | (2 predicate) coin predicate | (3) coin signed
 //!   output = (0 addr asset) coin | (1 addr asset) change | (2 contract) contract created | (3) variable | (4) contract
 //!   all registry values are small ids; id 0 = the type's default value.
 //! observation = one entry per op:
-//!   block, compressed:  (0 ((ks key) ...per tx...) (regs x5) dstatus hdr_eq txs_eq ctables dtables)
+//!   block, compressed:  (0 ((ks key) ...per tx...) (regs x5) dstatus hdr_eq txs_eq ids_eq ctables dtables)
+//!                       txs_eq: decompressed transactions == original; ids_eq: same transaction ids
 //!   block, compress failed: (1 ctables dtables)
 //!   cursor op: (2)
 //!   tables = per keyspace ((key val ts) ...sorted) ((val key) ...sorted) [latest-assigned-key option, compressor only]
@@ -52,7 +56,7 @@ use fuel_core_types::{
     fuel_crypto::Hasher,
     fuel_tx::{
         self, input::PredicateCode, policies::Policies, Address, AssetId, Bytes32, CompressedTransaction,
-        ContractId, Input, Output, ScriptCode, Transaction, TxPointer, UniqueIdentifier, UtxoId,
+        field::ReceiptsRoot, ContractId, Input, Output, ScriptCode, Transaction, TxPointer, UniqueIdentifier, UtxoId,
     },
     fuel_types::{BlockHeight, ChainId, Nonce},
     tai64::Tai64,
@@ -177,16 +181,18 @@ fn onchain_db() -> OnChain {
 fn build_tx(t: &T, salt: u64) -> Transaction {
     let f = t.as_l();
     let script = code(f[0].as_u32());
+    let mal: u8 = if f.len() > 3 { f[3].as_u64() as u8 } else { 0 };
+    let mroot = |d: u8| if mal == 0 { Bytes32::default() } else { Bytes32::new([mal.wrapping_add(d); 32]) };
     let mut inputs = vec![];
     for (i, inp) in f[1].as_l().iter().enumerate() {
         let o = inp.as_l();
         let sel = (salt as usize + i) as u64;
         inputs.push(match o[0].as_i() {
             0 => Input::contract(
-                UtxoId::default(),
-                Bytes32::default(),
-                Bytes32::default(),
-                TxPointer::default(),
+                if mal == 0 { UtxoId::default() } else { UtxoId::new(mroot(2), 1) },
+                mroot(0),
+                mroot(1),
+                if mal == 0 { TxPointer::default() } else { TxPointer::new(BlockHeight::new(mal as u32), 1) },
                 ContractId::new(b32(o[1].as_u32())),
             ),
             1 => {
@@ -229,14 +235,20 @@ fn build_tx(t: &T, salt: u64) -> Transaction {
         let o = out.as_l();
         outputs.push(match o[0].as_i() {
             0 => Output::coin(Address::new(b32(o[1].as_u32())), salt + i as u64, AssetId::new(b32(o[2].as_u32()))),
-            1 => Output::change(Address::new(b32(o[1].as_u32())), 0, AssetId::new(b32(o[2].as_u32()))),
+            1 => Output::change(Address::new(b32(o[1].as_u32())), mal as u64, AssetId::new(b32(o[2].as_u32()))),
             2 => Output::contract_created(ContractId::new(b32(o[1].as_u32())), Bytes32::new([salt as u8; 32])),
-            3 => Output::variable(Address::default(), 0, AssetId::default()),
-            4 => Output::contract(i as u16, Bytes32::default(), Bytes32::default()),
+            3 => {
+                if mal == 0 {
+                    Output::variable(Address::default(), 0, AssetId::default())
+                } else {
+                    Output::variable(Address::new(b32(mal as u32)), mal as u64, AssetId::new(b32(mal as u32)))
+                }
+            }
+            4 => Output::contract(i as u16, mroot(3), mroot(4)),
             k => panic!("bad output kind {k}"),
         });
     }
-    let tx = Transaction::script(
+    let mut tx = Transaction::script(
         salt % 1000,
         script,
         vec![salt as u8; (salt % 4) as usize],
@@ -245,6 +257,9 @@ fn build_tx(t: &T, salt: u64) -> Transaction {
         outputs,
         vec![vec![salt as u8; 2].into()],
     );
+    if mal != 0 {
+        *tx.receipts_root_mut() = mroot(5);
+    }
     Transaction::Script(tx)
 }
 
@@ -254,13 +269,32 @@ fn build_block(op: &[T], idx: usize) -> Block {
     let mut txs: Vec<Transaction> =
         op[3].as_l().iter().enumerate().map(|(i, t)| build_tx(t, (idx * 31 + i * 7 + 3) as u64)).collect();
     let m = op[4].as_l();
+    let mm: u8 = if m.len() > 2 { m[2].as_u64() as u8 } else { 0 };
     let mint = Transaction::mint(
         TxPointer::new(BlockHeight::new(height), txs.len() as u16),
-        fuel_tx::input::contract::Contract {
-            contract_id: ContractId::new(b32(m[0].as_u32())),
-            ..Default::default()
+        if mm == 0 {
+            fuel_tx::input::contract::Contract {
+                contract_id: ContractId::new(b32(m[0].as_u32())),
+                ..Default::default()
+            }
+        } else {
+            fuel_tx::input::contract::Contract {
+                utxo_id: UtxoId::new(Bytes32::new([mm; 32]), 2),
+                balance_root: Bytes32::new([mm; 32]),
+                state_root: Bytes32::new([mm.wrapping_add(1); 32]),
+                tx_pointer: TxPointer::new(BlockHeight::new(mm as u32), 0),
+                contract_id: ContractId::new(b32(m[0].as_u32())),
+            }
         },
-        fuel_tx::output::contract::Contract { input_index: 0, ..Default::default() },
+        if mm == 0 {
+            fuel_tx::output::contract::Contract { input_index: 0, ..Default::default() }
+        } else {
+            fuel_tx::output::contract::Contract {
+                input_index: 0,
+                balance_root: Bytes32::new([mm.wrapping_add(2); 32]),
+                state_root: Bytes32::new([mm.wrapping_add(3); 32]),
+            }
+        },
         idx as u64 + 11,
         AssetId::new(b32(m[1].as_u32())),
         idx as u64 % 3,
@@ -520,18 +554,18 @@ pub fn run(input: &T) -> T {
                         };
                         decompress(cfg, ctx, wire).now_or_never().expect("decompress resolves instantly")
                     };
-                    let (dstatus, hdr_eq, txs_eq) = match dres {
+                    let (dstatus, hdr_eq, txs_eq, ids_eq) = match dres {
                         Ok(pb) => {
                             dtx.commit().expect("commit");
                             let orig: PartialFuelBlock = block.clone().into();
                             let chain = ChainId::default();
                             let ids_eq = pb.transactions.len() == orig.transactions.len()
                                 && pb.transactions.iter().zip(orig.transactions.iter()).all(|(a, b)| a.id(&chain) == b.id(&chain));
-                            (0, pb.header == orig.header, pb.transactions == orig.transactions && ids_eq)
+                            (0, pb.header == orig.header, pb.transactions == orig.transactions, ids_eq)
                         }
                         Err(_) => {
                             drop(dtx);
-                            (1, false, false)
+                            (1, false, false, false)
                         }
                     };
                     out.push(T::l(vec![
@@ -541,6 +575,7 @@ pub fn run(input: &T) -> T {
                         T::i(dstatus),
                         T::b(hdr_eq),
                         T::b(txs_eq),
+                        T::b(ids_eq),
                         dump(&cstore, &code_ids, true),
                         dump(&dstore, &code_ids, false),
                     ]));
